@@ -113,7 +113,7 @@ theorem stopScan_levels (m : Mode) (tid r : Nat) (v : Rat) (hint : Bool) (next :
       · simp [h2, Rung.add]
 
 theorem taskContinues_forced (m : Mode) (v : Rat) (rg : Rung) (hint : Bool) (c : Rat) (b : Bool)
-    (hc : rg.cutoff m = some c) (hf : cmpNoWorse m v c = .forced b) :
+    (hc : rg.cutoff m = some c) (hf : cmpNoWorse m v c rg.scale = .forced b) :
     (taskContinues m v rg hint).1 = b := by
   unfold taskContinues; simp [hc, hf, Cmp.resolve]
 
@@ -122,14 +122,61 @@ theorem taskContinues_none (m : Mode) (v : Rat) (rg : Rung) (hint : Bool)
   unfold taskContinues; simp [hc]
 
 /-- a forced comparison agrees with the exact order -/
-theorem cmpLe_forced (a b : Rat) (x : Bool) (h : cmpLe a b = .forced x) : (x = true ↔ a ≤ b) := by
+theorem cmpLe_forced (a b sc : Rat) (x : Bool) (h : cmpLe a b sc = .forced x) : (x = true ↔ a ≤ b) := by
   unfold cmpLe at h
   split at h
   · cases h
   · injection h with h; subst h; simp
 
-theorem cmpNoWorse_forced (m : Mode) (v c : Rat) (x : Bool) (h : cmpNoWorse m v c = .forced x) :
+theorem cmpNoWorse_forced (m : Mode) (v c sc : Rat) (x : Bool) (h : cmpNoWorse m v c sc = .forced x) :
     (x = true ↔ m.noWorse v c) := by
-  cases m <;> simp only [cmpNoWorse, Mode.noWorse] at * <;> exact cmpLe_forced _ _ _ h
+  cases m <;> simp only [cmpNoWorse, Mode.noWorse] at * <;> exact cmpLe_forced _ _ _ _ h
+
+
+/-! ### scheduler wrapper -/
+
+theorem onResultLive_decision (s s' : Sched) (tid r : Nat) (v : Rat) (rec : TrialInfo) (o : RepOut)
+    (out : ResOut) (h : s.onResultLive tid r v rec o = .ok (s', out)) :
+    out.decision = s.decisionFor r o := by
+  dsimp only [Sched.onResultLive] at h
+  split at h
+  · cases h
+  · injection h with h
+    injection h with _ h2
+    rw [← h2]
+
+theorem afterReport_decision (s s' : Sched) (tid r : Nat) (v : Rat) (rec : TrialInfo) (g : Manager)
+    (o : RepOut) (total : Rat) (out : ResOut) (hig : o.ignoreData = false)
+    (h : s.afterReport tid r v rec g o total = .ok (s', out)) :
+    out.decision = ({ s with mgr := g } : Sched).decisionFor r o := by
+  unfold Sched.afterReport at h
+  cases hc : s.costOffsetAfter tid total o with
+  | error e => simp [hc] at h
+  | ok co =>
+    simp only [hc, hig, Bool.false_eq_true, if_false] at h
+    have := onResultLive_decision _ _ _ _ _ _ _ _ h
+    rw [this]; rfl
+
+theorem taskReport_type_maxT (g g' : Manager) (tid r : Nat) (v : Rat) (hint : Bool) (cost eps : Rat)
+    (o : RepOut) (h : g.taskReport tid r v hint cost eps = .ok (g', o)) :
+    g'.type = g.type ∧ g'.maxT = g.maxT := by
+  unfold Manager.taskReport at h
+  cases h1 : alookup tid g.taskInfo with
+  | none => simp [h1] at h
+  | some b =>
+    simp only [h1] at h
+    cases h2 : g.systems[(g.sysFor b).1]? with
+    | none => simp [h2] at h
+    | some sys =>
+      simp only [h2] at h
+      split at h
+      · split at h
+        · cases h
+        · injection h with h
+          injection h with ha _
+          rw [← ha]; simp [Manager.setSys]
+      · injection h with h
+        injection h with ha _
+        rw [← ha]; simp
 
 end SyneTune
